@@ -565,8 +565,9 @@ zix_path_lexically_relative(ZixAllocator* const allocator,
     // Copy suffix from path (from `a` to the end)
     const size_t suffix_len = path_len - a.range.begin;
     offset = zix_path_append(rel, offset, path + a.range.begin, suffix_len);
-  } else if (n_up && path_len > 1 && is_dir_sep(path[path_len - 1U])) {
-    // Copy trailing directory separator from path
+  } else if (n_up && path_len > path_root.dir.end &&
+             is_dir_sep(path[path_len - 1U])) {
+    // Copy trailing directory separator from path (but not from a root)
     rel[offset++] = path[path_len - 1U];
   }
 
